@@ -183,4 +183,91 @@ def sees (e : Env) (sc : Scope) (n : Str) : Option Str :=
 def renderRef (user internal builtins : Vars) (sc : Scope) (n d : Str) : Str :=
   (sees (renderEnv user internal builtins) sc n).getD d
 
+/-! ### track-parameter accounting: which names a template reads from the render context
+
+`register_all_params_in_track` asks Jinja (`meta.find_undeclared_variables`) for the names a template reads without
+binding them itself.  A template is abstracted to the statements that matter for that question; `undeclared` mirrors
+Jinja's scope analysis (symbols are recorded in source order; `for`, `macro` and `with` open a scope of their own,
+`set`, a macro definition and `import … as` bind a name for the rest of the enclosing scope). -/
+
+inductive Stmt
+  | read (n : Str)                                          -- any expression that loads `n`
+  | set (n : Str) (rhs : List Str)                          -- {% set n = … rhs names … %}
+  | forLoop (v : Str) (iter : List Str) (body : List Stmt)  -- {% for v in … %} body {% endfor %}
+  | macro (name : Str) (args : List Str) (body : List Stmt) -- {% macro name(args) %} body {% endmacro %}
+  | withBlock (n : Str) (rhs : List Str) (body : List Stmt) -- {% with n = … %} body {% endwith %}
+  | importAs (n : Str)                                      -- {% import "…" as n %}
+
+def loopName : Str := ['l', 'o', 'o', 'p']
+
+/-- the names of `l` that are not bound -/
+def free (bound : List Str) (l : List Str) : List Str := l.filter (fun n => decide (n ∉ bound))
+
+/-- the names a statement binds for the statements that follow it in the same scope -/
+def bindsAfter : Stmt → List Str
+  | .set n _ => [n]
+  | .macro name _ _ => [name]
+  | .importAs n => [n]
+  | _ => []
+
+/-- the names a scope binds at its own level, anywhere in it -/
+def storesOf : List Stmt → List Str
+  | [] => []
+  | s :: rest => bindsAfter s ++ storesOf rest
+
+/-- Jinja's `find_undeclared_variables` on the abstraction.  Jinja resolves names at compile time, scope by scope:
+    inside one scope a load that precedes the scope's own binding of the name is a context read, but a nested scope
+    (`for` / `macro` / `with` body) is analysed against the *complete* symbol table of its enclosing scopes — a name the
+    enclosing scope binds anywhere, even later, is not read from the context inside the nested scope (at run time it is
+    undefined there).  `full` = everything visible from the enclosing scopes plus all own-level bindings of this scope,
+    `b` = everything visible from the enclosing scopes plus the own-level bindings so far. -/
+def undeclared : List Str → List Str → List Stmt → List Str
+  | _, _, [] => []
+  | full, b, .read n :: rest => free b [n] ++ undeclared full b rest
+  | full, b, .set n rhs :: rest => free b rhs ++ undeclared full (n :: b) rest
+  | full, b, .forLoop v it body :: rest =>
+    free b it ++ undeclared (storesOf body ++ (v :: loopName :: full)) (v :: loopName :: full) body ++ undeclared full b rest
+  | full, b, .macro name args body :: rest =>
+    undeclared (storesOf body ++ (args ++ full)) (args ++ full) body ++ undeclared full (name :: b) rest
+  | full, b, .withBlock n rhs body :: rest =>
+    free b rhs ++ undeclared (storesOf body ++ (n :: full)) (n :: full) body ++ undeclared full b rest
+  | full, b, .importAs n :: rest => undeclared full (n :: b) rest
+
+/-- the undeclared names of a whole template -/
+def undeclaredOf (tpl : List Stmt) : List Str := undeclared (storesOf tpl) [] tpl
+
+/-- `register_all_params_in_track`: the undeclared names of the template minus the names the parsing environment knows
+    as globals (Jinja's built-ins and Rally's internal variables) -/
+def registeredParams (envGlobals : List Str) (tpl : List Stmt) : List Str :=
+  (undeclaredOf tpl).filter (fun n => decide (n ∉ envGlobals))
+
+/-- `CompleteTrackParams`: the names registered by the assembled track file and by every index body / template file -/
+def trackDefinedParams (envGlobals : List Str) (templates : List (List Stmt)) : List Str :=
+  templates.flatMap (registeredParams envGlobals)
+
+/-- `unused_user_defined_track_params` -/
+def unusedParams (envGlobals : List Str) (templates : List (List Stmt)) (user : List Str) : List Str :=
+  user.filter (fun p => decide (p ∉ trackDefinedParams envGlobals templates))
+
+/-- declarative: the scope reads `n` from the render context somewhere — at its own level before it binds `n`
+    itself, or inside a nested scope that does not see `n` bound by itself (so far) or by any enclosing scope (anywhere) -/
+inductive ReadsContext : List Str → List Str → List Stmt → Str → Prop
+  | read {full b n rest} : n ∉ b → ReadsContext full b (.read n :: rest) n
+  | setRhs {full b x rhs rest n} : n ∈ rhs → n ∉ b → ReadsContext full b (.set x rhs :: rest) n
+  | forIter {full b v it body rest n} : n ∈ it → n ∉ b → ReadsContext full b (.forLoop v it body :: rest) n
+  | forBody {full b v it body rest n} :
+      ReadsContext (storesOf body ++ (v :: loopName :: full)) (v :: loopName :: full) body n →
+      ReadsContext full b (.forLoop v it body :: rest) n
+  | macroBody {full b name args body rest n} :
+      ReadsContext (storesOf body ++ (args ++ full)) (args ++ full) body n →
+      ReadsContext full b (.macro name args body :: rest) n
+  | withRhs {full b x rhs body rest n} : n ∈ rhs → n ∉ b → ReadsContext full b (.withBlock x rhs body :: rest) n
+  | withBody {full b x rhs body rest n} :
+      ReadsContext (storesOf body ++ (x :: full)) (x :: full) body n →
+      ReadsContext full b (.withBlock x rhs body :: rest) n
+  | later {full b s rest n} : ReadsContext full (bindsAfter s ++ b) rest n → ReadsContext full b (s :: rest) n
+
+/-- a whole template reads `n` from the render context -/
+def TemplateReads (tpl : List Stmt) (n : Str) : Prop := ReadsContext (storesOf tpl) [] tpl n
+
 end TrackTemplate
